@@ -531,13 +531,13 @@ def _set_config_guard(real):
     import functools  # noqa: PLC0415
 
     @functools.wraps(real)
-    def set_config(decay_pattern, sub_decay_pattern):
+    def set_config(*args, **kw):
         from decaylanguage.utils import DescriptorFormat  # noqa: PLC0415
 
         before = dict(DescriptorFormat.config)
         COUNTS["C14.set_config.rejected_leaves_format"] += 1
         try:
-            return real(decay_pattern, sub_decay_pattern)
+            return real(*args, **kw)
         except BaseException:
             if DescriptorFormat.config != before:
                 record("C14", "set_config:rejected-pattern-changed-format", f"format {before!r} became {DescriptorFormat.config!r} although set_config raised", None)
@@ -646,10 +646,11 @@ def arm(*groups):
             import functools  # noqa: PLC0415
 
             @functools.wraps(real_build)
-            def build_decay_chains(self, mother, stable_particles=()):
-                # the contract is evaluated for top-level calls only (the function recurses through self.build_decay_chains)
-                if _depth["chains"]:
-                    return real_build(self, mother, stable_particles)
+            def build_decay_chains(self, mother, stable_particles=(), *more, **kw):
+                # the contract is evaluated for top-level calls only (the function recurses through self.build_decay_chains);
+                # whatever further (private) arguments the recursion passes along are handed through untouched
+                if _depth["chains"] or more or kw:
+                    return real_build(self, mother, stable_particles, *more, **kw)
                 _depth["chains"] += 1
                 try:
                     if bud.limit is None:
